@@ -523,7 +523,20 @@ func (c *Ctx) oneOfSchema(depth int) *Schema {
 			obj.Required = append(obj.Required, names[0])
 			sort.Strings(obj.Required)
 		}
-		// the required property must not be nullable-with-null ambiguity: keep as drawn
+		// sometimes the variant's only required property is nullable: the key must still
+		// be present (required and nullable are independent), which is what tells this
+		// variant from the next when there is no discriminator
+		if len(names) > 0 && rapid.IntRange(0, 2).Draw(t, "sole_required_nullable") == 0 {
+			if ps := obj.Properties[names[0]]; ps.Ref == "" && len(ps.AllOf)+len(ps.OneOf) == 0 && ps.Type != "array" && ps.Type != "object" && ps.Type != "" {
+				cp := *ps
+				cp.Nullable = true
+				if c.AllowSchema(&cp, "property") {
+					obj.Properties[names[0]] = &cp
+					obj.Required = []string{names[0]}
+					c.Tag("oneOf:variant-sole-required-is-nullable")
+				}
+			}
+		}
 	}
 	for i := 0; i < n; i++ {
 		switch rapid.IntRange(0, 2).Draw(t, "oneof_member") {
